@@ -130,6 +130,24 @@ def _base(callee: str) -> str:
     return c[last:]
 
 
+def _tail(callee: str) -> str:
+    """The last '::'-component of a pretty name, template arguments included."""
+    depth = 0
+    last = 0
+    i = 0
+    while i < len(callee):
+        ch = callee[i]
+        if ch in "<(":
+            depth += 1
+        elif ch in ">)":
+            depth = max(0, depth - 1)
+        elif ch == ":" and callee.startswith("::", i) and depth == 0:
+            last = i + 2
+            i += 1
+        i += 1
+    return callee[last:]
+
+
 def parse_dump(path: str, want_files: Set[str]) -> List[GFunc]:
     """Parse a -fdump-tree-cfg-blocks-details-lineno dump; keep only functions with a statement located in want_files."""
     out: List[GFunc] = []
@@ -188,7 +206,7 @@ def parse_dump(path: str, want_files: Set[str]) -> List[GFunc]:
             for f, l, _ in locs:
                 if f in want_files:
                     cur.lines.add((f, int(l)))
-            mt = re.match(r"^(_\d+|[A-Za-z_][\w.]*) = (.+);$", stmt)
+            mt = re.match(r"^(_\d+|[A-Za-z_][\w.]*) = &?(.+);$", stmt)
             if mt and "(" not in mt.group(2):
                 temps[mt.group(1)] = mt.group(2)
             if not stmt.endswith(");") or stmt.startswith(("if (", "switch (", "goto ", "return", "//")):
@@ -209,7 +227,15 @@ def parse_dump(path: str, want_files: Set[str]) -> List[GFunc]:
                             "__cxa_allocate_exception", "__cxa_throw", "__cxa_free_exception", "__builtin_trap", "__cxa_guard_acquire",
                             "__cxa_guard_release", "__cxa_guard_abort", "__builtin_memcpy", "__builtin_memset", "__builtin_expect"):
                 continue
-            gc = GCall(f0, int(l0), int(c0), callee, _base(callee) if not callee.startswith("*") else callee, block)
+            base = _base(callee) if not callee.startswith("*") else callee
+            if base == "operator()":
+                # functor / std::function member invoked through a loaded field: name the call after the field
+                a0 = sp[1].split(",")[0].strip().rstrip(");")
+                src = temps.get(a0, a0)
+                fm = re.search(r"(?:->|\.)([A-Za-z_]\w*)$", src.lstrip("&"))
+                if fm:
+                    base = "*" + fm.group(1)
+            gc = GCall(f0, int(l0), int(c0), callee, base, block)
             cur.calls.append(gc)
             pending.append(gc)
     if cur is not None and cur.lines:
@@ -271,6 +297,7 @@ def thorough_gir(prop: str, run) -> Optional[dict]:
         if not m:
             continue
         by_file.setdefault(rel, []).append((qual, int(m.group(1)), int(m.group(2))))
+    tree_names = {f.name for rel in run.tree.all_files() for f in run.tree.file(rel).funcs}
     scratch = tempfile.mkdtemp(prefix=f"hgv_gir_{prop}_", dir=os.environ.get("TMPDIR") or "/tmp")
     res = {"tus": [], "functions_checked": 0, "gir_instances": 0, "src_calls": 0, "gir_calls": 0, "g1_missing_in_gir": [], "g2_missing_in_src": [],
            "g3_noexcept_with_eh": [], "not_instantiated": [], "blocks": 0, "eh_edges": 0}
@@ -345,14 +372,16 @@ def thorough_gir(prop: str, run) -> Optional[dict]:
                         continue
                     if nm in local_names:
                         continue  # call of a local lambda / function object: GCC names it operator()
+                    if nm.split("::")[-1] not in tree_names:
+                        continue  # not a function of this code base (std / third-party niebloids, macros): outside the rules' vocabulary
                     res["g1_missing_in_gir"].append(f"{rel}::{qual}: SRC saw a call `{nm}` that GCC does not place in L{a}-{b}")
                 for nm, c in sorted(gir_calls.items()):
                     if nm in src_calls or not nm or GIR_IGNORE_BASE.fullmatch(nm):
                         continue
                     if not c.callee.startswith(("hgraph::", "*")):
                         continue
-                    parts = re.sub(r"<.*", "", c.callee).split("::")
-                    if len(parts) >= 2 and parts[-1] == parts[-2]:
+                    owner = c.callee[:len(c.callee) - len(_tail(c.callee))].rstrip(":")
+                    if owner and _base(owner) == _base(c.callee):
                         continue  # constructor: SRC models construction as a declaration / brace-init, not as a call
                     res["g2_missing_in_src"].append(f"{rel}:{c.line}:{c.col}: GCC calls `{c.callee}` inside {qual}, the SRC parser saw no call named `{nm}`")
     finally:
